@@ -29,6 +29,10 @@ func VerifC14RoundTrip() {
 	mtu := verifU16("mtu")
 	verifAssume(mtu >= 4)
 	pay := &H265Payloader{AddDONL: verifCase("donl", 0, 1) == 1, SkipAggregation: verifCase("skipAggregation", 0, 1) == 1, donl: verifU16("donl0")}
+	if pay.AddDONL {
+		// with DONL the smallest packet that carries payload is a 6-byte FU (3 header + 2 DONL + 1)
+		verifAssume(mtu >= 6)
+	}
 	n := verifCase("units", 1, verifBound("C14.units"))
 	var units []verifHEVC
 	var stream []byte
@@ -55,6 +59,10 @@ func VerifC14RoundTrip() {
 		verifAssert("C14.mtu", len(pl) <= int(mtu))
 		_, err := dep.Unmarshal(pl)
 		verifAssert("C14.parse", err == nil)
+		if _, isFU := dep.Packet().(*H265FragmentationUnitPacket); !isFU && fuCount > 0 {
+			oneFragment = true // a fragment run was abandoned without an end fragment
+			fu, fuCount = nil, 0
+		}
 		switch k := dep.Packet().(type) {
 		case *H265SingleNALUnitPacket:
 			h := k.PayloadHeader()
@@ -90,6 +98,10 @@ func VerifC14RoundTrip() {
 			verifCover("C14.aggregation")
 		case *H265FragmentationUnitPacket:
 			ph, fh := k.PayloadHeader(), k.FuHeader()
+			if fh.S() && fuCount > 0 {
+				oneFragment = true // the previous run never ended
+				fu, fuCount = nil, 0
+			}
 			verifAssert("C14.fu.type", ph.Type() == 49)
 			verifAssert("C14.fu.start", fh.S() == (fuCount == 0))
 			verifAssert("C14.fu.head", dep.IsPartitionHead(pl) == (fuCount == 0))
@@ -109,8 +121,6 @@ func VerifC14RoundTrip() {
 				got = append(got, fu)
 				fu, fuCount = nil, 0
 				verifCover("C14.fragmentation")
-			} else if len(fu) >= 2 && fh.S() {
-				_ = oneFragment
 			}
 		default:
 			verifAssert("C14.known-kind", false)
@@ -154,9 +164,8 @@ func VerifC14Accessors() {
 	verifAssert("C14.acc.fu", fh.S() == (f>>7 == 1) && fh.E() == (f>>6&1 == 1) && fh.FuType() == f&0x3F)
 
 	// PACI: A | cType(6) | PHSsize(5) | F0 F1 F2 | Y, then PHES, then the payload
-	pw := verifU16("paci-fields")
-	phs := int(pw >> 4 & 0x1F)
-	verifAssume(phs <= verifBound("C14.maxphes"))
+	phs := verifCase("phssize", 0, verifBound("C14.maxphes"))
+	pw := verifU16("paci-fields")&^(0x1F<<4) | uint16(phs)<<4
 	phes := verifBytes("phes", phs)
 	body := verifBytes("paci-body", verifCase("paci-bodylen", 1, 2))
 	pkt := []byte{50 << 1, verifU8("paci-h1")&0xF8 | 1, uint8(pw >> 8), uint8(pw)}
